@@ -22,7 +22,9 @@ RULE = ("one case = one operation sequence (<= 25 steps quick / 30 thorough) gen
         "continuing on the sub-table returned by query_index_column_value or slow_query. Two table shapes: 'table' "
         "(2-4 columns of kinds int / str / mixed over tiny alphabets {0,1,2,3}, {x,y,z,''}, duplicates, None, NaN, "
         "absent keys) and 'gir' (operation, stmt_id, parent_stmt_id, name, body, else_body with nested balanced "
-        "block_start/block_end markers, mutated by the same operations). After EVERY operation every query is compared "
+        "block_start/block_end markers, mutated by the same operations). After every operation (except after ~1/6 of the "
+        "flagged mutations / table replacements, drawn per step, so that the next operation meets dirty caches; the "
+        "order 'indexed queries first' / 'row queries first' is drawn per step too) every query is compared "
         "with a scan of the model: len, iteration, access(pos) for every position and just outside, access(list|set), "
         "get_rows, access_column / [] / unique_values_of_column / convert_to_dict_list / access(label, column) per "
         "column, query_index_column_value_indices / _value / _first and Column.bundle_search for every column x every "
@@ -32,9 +34,10 @@ RULE = ("one case = one operation sequence (<= 25 steps quick / 30 thorough) gen
         "id, and a GIRBlockViewer built from the table (root, copy, every block view, append_other of disjoint "
         "blocks: len, iteration, [], get_stmt_by_id/pos, contains*, query_operation, query_field, get_block_stmt_ids, "
         "get_all_stmt_ids, read_block visibility, boundary_of_multi_blocks). Tables replaced by slice/clone/sub-table "
-        "stay alive and are re-checked for independence. Non-trivial = the sequence contains an in-place "
-        "mutation of a table that was already fully queried which changes the expected answer of at least one "
-        "equality query (query -> mutation -> same query, different answer); distinct by content hash of the sequence.")
+        "stay alive and are re-checked for independence. Exact duplicates of an earlier generated sequence are not "
+        "executed (counted under discarded). Non-trivial = the sequence contains in-place mutation(s) of a table object "
+        "between two full comparisons of that object which change the expected answer of at least one equality query "
+        "(query -> mutation -> same query, different answer); distinct by content hash of the sequence.")
 
 ASSUMPTIONS = [
     "missing values (None, NaN, absent key) are one class 'missing'; a missing value or an empty string never matches an "
@@ -340,7 +343,8 @@ def strategies(max_steps):
             except Exception:
                 continue
             ops.append(op)
-        orders = "".join(pick(draw, "IIR") for _ in ops)
+        # per step: I = indexed queries first, R = row queries first, N = no comparison after this step
+        orders = "".join(pick(draw, "IIIRRN") for _ in ops)
         return {"kind": kind, "ops": ops, "orders": orders}
 
     return case
@@ -366,6 +370,8 @@ def record(col, case, res, sampled=True):
     col.label("kind:" + case["kind"])
     for l in sorted(res["labels"]):
         col.label(l)
+    if res.get("error"):
+        col.error(res["error"][-3000:])
     if res["found"]:
         sig, what = res["found"]
         col.discrepancy(sig, what, case)
@@ -456,6 +462,9 @@ def replay(path):
     rec = common.load_replay(path)
     res = check_case(rec["case"])
     d = res["found"]
+    if res.get("error"):
+        print("HARNESS-ERROR: property=%s %s" % (ID, res["error"]))
+        return 2
     if d:
         kind, _ = common.classify(ID, tuple(d[0]))
         if kind == "known" and not os.environ.get("VERIF_CONFIRM"):
